@@ -13,7 +13,7 @@ import (
 )
 
 func (vc *VC) safety(fr *frame, n *Node, label, text string, p token.Pos, goal string) {
-	if vc.noSafety || goal == "true" {
+	if goal == "true" || (vc.noSafety && !(fr == vc.top && vc.safetyKinds[label])) {
 		return
 	}
 	lbl := fmt.Sprintf("safety.%s.b%d", label, n.blk.Index)
